@@ -37,6 +37,7 @@ func NewStubTable() *StubTable {
 	}
 	installDataStubs(t)
 	installAtomicStubs(t)
+	installSyncMapStubs(t)
 	t.Native["sort.Slice"] = func(i *interpreter, caller *frame, fn *ssa.Function, args []value) value {
 		return sortSlice(i, caller, args)
 	}
@@ -61,6 +62,9 @@ func NewStubTable() *StubTable {
 					return sx
 				}
 				if sx.g != nil {
+					if sx.g.den != nil {
+						unsupported("rounding of an inexact quotient")
+					}
 					return gridRound(sx, mode)
 				}
 				rm := map[string]string{"round": "RNA", "floor": "RTN", "ceil": "RTP", "trunc": "RTZ"}[mode]
